@@ -78,6 +78,7 @@ def op (w : W) (ws : List String) : String × W :=
           (sup = "0" || sup = "1") && (churn = "0" || churn = "1") then ("ran", w) else ("bad-op", w)
     | _, _, _, _, _ => ("bad-op", w)
   | "hist" :: rest => (History.judgeLine rest, w)
+  | "judge" :: rest => (History.judgeLine rest, w)
   | _ => ("bad-op", w)
 
 def step (w : W) (line : String) : W × String :=
